@@ -143,6 +143,35 @@ def m2(ctx):
     return obs
 
 
+def _identity_chain(cfg, du, node, e, depth=0) -> bool:
+    """Is *e* (on the no-sub-elements path) the body passed only through byte-joining and decoding -
+    i.e. no transformation that could alter the characters?"""
+    if depth > 4:
+        return False
+    while isinstance(e, ast.Await):
+        e = e.value
+    if isinstance(e, ast.Call) and isinstance(e.func, ast.Attribute):
+        if e.func.attr == "decode":
+            return _identity_chain(cfg, du, node, e.func.value, depth + 1)
+        if e.func.attr == "join" and isinstance(e.func.value, ast.Constant) and e.func.value.value in (b"", "") and len(e.args) == 1:
+            return _identity_chain(cfg, du, node, e.args[0], depth + 1)
+        if dotted(e.func) == "resource.get_body" and not e.args:
+            return True
+        return False
+    if isinstance(e, ast.Name):
+        defs = du.reaching(node, e.id)
+        oks = []
+        for d in defs:
+            if d.value is None or d.kind != "assign":
+                return False
+            req = cfg.required_conditions(d.node)
+            if any(isinstance(t, ast.Compare) and "requested" in src(t) and not pol for t, pol in req):
+                continue  # definition on the sub-elements path
+            oks.append(_identity_chain(cfg, du, d.node, d.value, depth + 1))
+        return bool(oks) and all(oks)
+    return False
+
+
 def data_from_body(ctx, prop_q: str, reporter_q: str = None):
     obs = []
     pc = ctx.P.cls(prop_q)
@@ -174,10 +203,11 @@ def data_from_body(ctx, prop_q: str, reporter_q: str = None):
                             if not other and from_body(d.value, d.node, depth + 1):
                                 return True
             return False
-        ok = from_body(s.ast.value, s)
+        ok = from_body(s.ast.value, s) and _identity_chain(cfg, du, s, s.ast.value)
         obs.append(ctx.ob(ok, gv.qualname, where(gv, s), "data without sub-elements is resource.get_body()",
                           "el.text <- b''.join(await resource.get_body()).decode()",
-                          "%s does not serialise resource.get_body() for a request without sub-elements: the data differs from what GET serves" % pc.name))
+                          "%s does not hand out resource.get_body() unchanged (only joining and decoding are allowed on the way) for a request without "
+                          "sub-elements: the data can differ from what GET serves" % pc.name))
     if reporter_q:
         rc = ctx.P.cls(reporter_q)
         dp = rc.attrs.get("data_property")
@@ -245,6 +275,22 @@ def m4(ctx):
                     ok = True
     obs.append(ctx.ob(ok, gr.qualname, gr.where, "unmappable href is reported as (href, None)", "yield (href, None) when href_to_path gave None",
                       "_get_resources_by_hrefs drops or mis-reports hrefs that cannot be mapped to a path"))
+    # the path -> href table is keyed by the mapped path itself: a many-to-one key would answer only one of several
+    # different hrefs that map to it
+    cfg = ctx.cfg(gr)
+    du = DefUse(cfg)
+    stores = [n for n in cfg.stmt_nodes() if n.kind == "stmt" and isinstance(n.ast, ast.Assign) and isinstance(n.ast.targets[0], ast.Subscript)]
+    if not stores:
+        raise AnalysisError("_get_resources_by_hrefs: path table not found")
+    for st in stores:
+        k = st.ast.targets[0].slice
+        okk = False
+        if isinstance(k, ast.Name):
+            ds = du.reaching(st, k.id)
+            okk = bool(ds) and all(isinstance(d.value, ast.Call) and (dotted(d.value.func) or "").endswith("href_to_path") for d in ds)
+        obs.append(ctx.ob(okk, gr.qualname, where(gr, st), "path table keyed by href_to_path(href) itself", "key is the mapped path",
+                          "the table is keyed by `%s`, a many-to-one function of the requested href: several different hrefs of one request collapse "
+                          "into one entry and only the last of them is answered" % src(k)))
     gp = ctx.func("xandikos.davcommon.get_properties_with_data")
     cfg = ctx.cfg(gp)
     du = DefUse(cfg)
